@@ -69,6 +69,10 @@ WRAP_CLASSES = ('yaclib::detail::AtomicBase', 'yaclib::detail::AtomicFloatingBas
                 'yaclib::detail::AtomicWait')
 
 ORDER_T = 'std::memory_order'
+SIZEOF = {'bool': 1, 'char': 1, 'signed char': 1, 'unsigned char': 1, 'short': 2, 'unsigned short': 2, 'int': 4,
+          'unsigned int': 4, 'long': 8, 'unsigned long': 8, 'long long': 8, 'unsigned long long': 8, 'float': 4,
+          'double': 8, 'long double': 16}
+FLOATING = ('float', 'double', 'long double')
 
 
 def opname(f):
@@ -126,6 +130,27 @@ class FiberSum(symexec.Summariser):
             old = self.read(fn, lv, p)
             self.write(fn, lv, self.expr(fn, b, p), p)
             return old
+        if cn in ('memcmp', 'std::memcmp') and len(n.get('args', [])) == 3:
+            # representation comparison of two whole objects: memcmp(&a, &b, sizeof(T))
+            def target(a):
+                m = fn.sn(a)
+                if m is not None and m['k'] == 'CallExpr' and m.get('cn') in ('std::addressof', 'std::__addressof'):
+                    inner = m['args'][0]
+                elif m is not None and m['k'] == 'UnaryOperator' and m.get('op') == '&':
+                    inner = m['ch'][0]
+                else:
+                    raise Unrecognised('memcmp operand %s' % fn.text(a))
+                lv = self.lvalue(fn, inner)
+                if lv is None:
+                    raise Unrecognised('memcmp operand %s' % fn.text(a))
+                return self.read(fn, lv, p)
+            a, b = target(n['args'][0]), target(n['args'][1])
+            size = (fn.sn(n['args'][2]) or {}).get('v')
+            T = fn.cta[0] if fn.cta else None
+            want = SIZEOF.get(T, 8 if T and T.endswith('*') else None)
+            if size is None or (want is not None and size != want):
+                raise Unrecognised('memcmp over %s bytes of a %s' % (size, T))
+            return norm(('op', 'reprcmp', a, b))
         g = self.callee(n)
         if g is not None and g.clsq in FIBER_CLASSES:
             # single-path inlining (e.g. load())
@@ -214,15 +239,31 @@ def check_fiber_method(ctx, fb, f, rule):
     if name in CAS:
         # rows: if v == p0 then (true, new=p1, expected unchanged) else (false, unchanged, expected := v)
         good = len(paths) == 2
+        floating = bool(f.cta) and f.cta[0] in FLOATING
+        value_eq_used = False
         if good:
-            eq = op('==', V, P0)
-            t = [p for p in paths if p.cond == [eq]]
-            e = [p for p in paths if p.cond == [('not', eq)]]
+            # std::atomic compares object representations; for integral / pointer / bool the value comparison is the
+            # same thing, for floating point it is not (-0.0 == +0.0 but the bits differ; NaN != NaN, same bits)
+            eq_repr = op('==', op('reprcmp', V, P0), ('const', 0))
+            eq_val = op('==', V, P0)
+            t = e = []
+            for eq in (eq_repr, eq_val):
+                t = [p for p in paths if p.cond == [eq]]
+                e = [p for p in paths if p.cond == [('not', eq)]]
+                if len(t) == 1 and len(e) == 1:
+                    value_eq_used = eq is eq_val
+                    break
             good = len(t) == 1 and len(e) == 1
             if good:
                 t, e = t[0], e[0]
                 good = (t.ret == TRUE and t.value_written and t.value == P1 and not t.ref_writes and
                         e.ret == FALSE and (not e.value_written or e.value == V) and e.ref_writes == {'p0': V})
+        if good and floating and value_eq_used:
+            ctx.report(rule, key + ' (representation)', f.where, 'compare-exchange on atomic<%s> decides with operator== '
+                       'where std::atomic compares object representations: stored +0.0 / expected -0.0 succeeds (std '
+                       'fails), stored NaN / expected the same NaN fails (std succeeds)' % f.cta[0],
+                       'instantiation: ' + f.full)
+            return
         if not good:
             ctx.report(rule, key, f.where, 'compare-exchange does not follow the std row '
                        '[v==e ? (true, store d) : (false, e:=v)]',
@@ -296,6 +337,52 @@ def check_wrapper_method(ctx, fb, f, rule, impl_prefixes):
     key = '%s::%s%s' % (f.clsq, name, ' volatile' if 'volatile' in f.flags else '')
     if 'ctor' in f.flags or 'dtor' in f.flags:
         return
+    known = name in REF or name in CAS or name in ('wait', 'notify_one', 'notify_all', 'is_always_lock_free')
+    # only compare_exchange_weak may consult the spurious-failure source — directly or through any other member of
+    # the wrapper (a strong CAS built from the wrapper's own weak CAS fails spuriously under injection)
+    if name != 'compare_exchange_weak':
+        def reaches(g, depth, seen):
+            for c in g.calls():
+                if c['cn'] == 'yaclib::detail::ShouldFailAtomicWeak':
+                    return [g.n]
+                h = fb.fn.get(c.get('ck'))
+                if h is not None and h.cfg is not None and h.clsq in WRAP_CLASSES and depth < 3 and h.key not in seen:
+                    seen.add(h.key)
+                    r = reaches(h, depth + 1, seen)
+                    if r:
+                        return [g.n] + r
+            return None
+        chain = reaches(f, 0, {f.key})
+        T = f.cta[1] if len(f.cta) >= 2 else None
+        if chain and known and T in FLOATING:
+            # an emulation of this operation on top of the weak CAS decides "did the value change" somewhere: with
+            # operator== / != on floating operands that is not what std::atomic does (object representation)
+            def float_compares(g, depth, seen):
+                out = []
+                for n in g.own_nodes():
+                    if n['k'] == 'BinaryOperator' and n.get('op') in ('==', '!='):
+                        ts = [(g.sn(c) or {}).get('t', '').replace('const ', '').replace('volatile ', '').strip()
+                              for c in n['ch']]
+                        if all(t == T for t in ts):
+                            out.append(g.loc(n))
+                for c in g.calls():
+                    h = fb.fn.get(c.get('ck'))
+                    if h is not None and h.cfg is not None and h.clsq in WRAP_CLASSES and depth < 3 and \
+                            h.key not in seen:
+                        seen.add(h.key)
+                        out += float_compares(h, depth + 1, seen)
+                return out
+            cmp_sites = float_compares(f, 0, {f.key})
+            if cmp_sites:
+                ctx.instance(rule, key, None)
+                ctx.report(rule, key + ' (representation)', cmp_sites[0], '%s on atomic<%s> is built on the injected weak '
+                           'CAS (%s) and decides with operator== / != on %s values whether the stored value changed: '
+                           'std::atomic compares object representations (+0.0 / -0.0: a real failure is retried and '
+                           'succeeds; NaN: an injected failure is reported as a real one — the strong CAS fails '
+                           'spuriously)' % (f.n, T, ' -> '.join(chain), T), 'instantiation: ' + f.full)
+                return
+    if not known:
+        return  # a private helper: judged through the operations that use it
     if len(f.cta) >= 2 and not f.clsq.endswith('AtomicFlag'):
         bad = param_types_ok(f, f.cta[1])
         if bad:
